@@ -249,10 +249,16 @@ def compare_cases(ctx):
 
 # ----------------------------------------------------------------------------- findings
 def load_known():
+    out = []
     p = os.path.join(ROOT, 'known_findings.json')
-    if not os.path.exists(p):
-        return []
-    return json.load(open(p)).get('findings', [])
+    if os.path.exists(p):
+        out += json.load(open(p)).get('findings', [])
+    d = os.path.join(ROOT, 'findings.d')
+    if os.path.isdir(d):
+        for fn in sorted(os.listdir(d)):
+            if fn.endswith('.json'):
+                out += json.load(open(os.path.join(d, fn))).get('findings', [])
+    return out
 
 
 def write_replay(prop, obj):
